@@ -368,3 +368,27 @@ var _ = reflect.ValueOf
 //@   ensures len(result) == len(t.globals)
 //@   loop 0
 //@     invariant len(vars) == len(t.globals)
+
+// ---------------------------------------------------------------------------
+// errors.go (C21): the public BuildError hands on, unchanged, the path, the
+// position and the message of the compiler's error (the byte offsets proved for
+// the lexer reach the embedder through these accessors).
+// ---------------------------------------------------------------------------
+
+//@ func (*BuildError).Path
+//@   props C21
+//@   opt puremethods Path Position Message
+//@   requires err.err != nil
+//@   ensures result == err.err.Path()
+
+//@ func (*BuildError).Position
+//@   props C21
+//@   opt puremethods Path Position Message
+//@   requires err.err != nil
+//@   ensures result.Line == err.err.Position().Line && result.Column == err.err.Position().Column && result.Start == err.err.Position().Start && result.End == err.err.Position().End
+
+//@ func (*BuildError).Message
+//@   props C21
+//@   opt puremethods Path Position Message
+//@   requires err.err != nil
+//@   ensures result == err.err.Message()
